@@ -88,7 +88,7 @@ def _min_pair_ok(a, dmin=0.05):
     return D.min() >= dmin
 
 
-def gen_messy(rng, maxn=80, want_kind=None):
+def gen_messy(rng, maxn=80, want_kind=None, coincident=False):
     """Returns (Atoms, meta).  Retries internally until the structure is inside
     the family (valid cell, no pair closer than 0.05 A)."""
     for _attempt in range(50):
@@ -99,6 +99,17 @@ def gen_messy(rng, maxn=80, want_kind=None):
             continue
         if not _min_pair_ok(a):
             continue
+        if coincident and len(a) >= 2:
+            # deliberate share: two same-species atoms that coincide up to a
+            # lattice vector (still a valid cell)
+            num = a.numbers
+            pairs = [(i, j) for i in range(len(a)) for j in range(len(a)) if i != j and num[i] == num[j]]
+            if pairs:
+                i, j = pairs[int(rng.integers(len(pairs)))]
+                shift = (rng.integers(-1, 2, 3) * a.pbc) @ a.cell.array
+                eps = float(rng.choice([0.0, 1e-15, 1e-9, 1e-6]))
+                a.positions[j] = a.positions[i] + shift + [eps, 0, 0]
+                meta = dict(meta, coincident=[int(i), int(j)], eps=eps)
         return a, meta
     # fall back to something trivially valid
     a = bulk("Cu", cubic=True) * (2, 2, 2)
